@@ -661,7 +661,61 @@ def _cmp_side(c, io, side, label, env, leaves, with_reads, trace=None):
     return out
 
 
+SYMBOL = {"add": "+", "sub": "-", "mul": "*", "truediv": "/", "floordiv": "//", "mod": "%", "pow": "**", "matmul": "@",
+          "rshift": ">>", "lshift": "<<", "and": "&", "or": "|", "xor": "^", "lt": "<", "le": "<=", "eq": "==", "ne": "!=",
+          "gt": ">", "ge": ">=", "pos": "+", "neg": "-", "invert": "~"}
+
+
+def render(node):
+    """ the expression in python syntax, for the replay's detail line """
+    k = node["k"]
+    if k in ("scalar", "ignored"):
+        return repr(dec_val(node["c"])) if k == "scalar" else "Ignored()"
+    if k == "iterable":
+        xs = ", ".join(repr(dec_val(x)) for x in node["xs"])
+        kind = node.get("kind", "list")
+        return {"list": "[%s]", "tuple": "tuple([%s])", "gen": "(x for x in [%s])", "deque": "deque([%s])", "iter": "iter([%s])",
+                "str": "''.join([%s])", "dictkeys": "dict.fromkeys([%s])", "range": "range_of([%s])"}[kind] % xs
+    if k == "stream1":
+        c = node.get("ctor", "Stream")
+        return ("thub(%s, 1)" if c == "thub" else c + "(%s)") % render(node["a"])
+    if k == "stream2":
+        return "Stream(%s, %s)" % (render(node["a"]), render(node["b"]))
+    if k == "un":
+        base = base_of(node["d"])[0]
+        if node.get("route") == "syntax" and base:
+            return "(%s%s)" % (SYMBOL[base], render(node["s"]))
+        return "%s.%s()" % (render(node["s"]), node["d"])
+    if k == "bin":
+        base, refl = base_of(node["d"])
+        r = node.get("route", "direct")
+        if r == "syntax" and base:
+            a, b = (node["o"], node["s"]) if refl else (node["s"], node["o"])
+            return "(%s %s %s)" % (render(a), SYMBOL[base], render(b))
+        if r == "swapped" and base:
+            return "(%s %s %s)" % (render(node["o"]), SYMBOL[SWAP[base]], render(node["s"]))
+        return "%s.%s(%s)" % (render(node["s"]), node["d"], render(node["o"]))
+    if k == "meth":
+        l = node["l"]
+        s_ = render(node["s"])
+        return "abs(%s)" % s_ if l == "abs" else s_ + "()" if l == "call" else s_ + "." + l[5:] if l.startswith("attr:") \
+            else "%s.map(%s)" % (s_, l[4:])
+    if k == "append":
+        return "%s.append(%s)" % (render(node["s"]), render(node["o"]))
+    return "?"
+
+
 def compare_expr(c, io, drv):
+    out = _compare_expr(c, io, drv)
+    if out:
+        try:
+            out[0] = (out[0][0], "list(%s): %s" % (render(c["prog"])[:300], out[0][1]))
+        except Exception:
+            pass
+    return out
+
+
+def _compare_expr(c, io, drv):
     _req, env, leaves = number(c["prog"])
     if str(io.get("err", "")).startswith("UNSUPPORTED") or str(io.get("err", "")).startswith("UNMAPPED"):
         return [("model", "harness problem: " + io["err"] + " " + io.get("trace", ""))]
